@@ -49,6 +49,33 @@ Theorem C08_roundtrip_every_level :
 Proof. exact roundtrip_every_level. Qed.
 Print Assumptions C08_roundtrip_every_level.
 
+(* 1''. Histories.  One thread packs one entry after the other, and reading an output file can fail part-way
+       (source = contents + an optional point of failure).  pack_history is the writer that exists: every put_object
+       builds its own zstd encoder, nothing is carried over.  Whatever the thread packed or FAILED to pack before, an
+       entry that is produced unpacks to exactly its own inputs; a pack with a failing source produces no entry; and
+       the i-th result is a function of the i-th inputs alone. *)
+Theorem C08_pack_history_roundtrip :
+  forall (compress : list N -> list N) (decompress : list N -> option (list N)),
+    (forall x, decompress (compress x) = Some x) ->
+  forall (ops : list pack_op) (i : nat) (op : pack_op) (bs : list N) (reqs : list (list N * bool)),
+    nth_error ops i = Some op -> nth_error (pack_history compress ops) i = Some (Some bs) ->
+    objs_ok (op_objs op) ->
+    writable (cache_members compress (op_objs op) (snd (fst op)) (snd op)) = true ->
+    no_z64_locator bs = true ->
+    map fst reqs = map obj_name (op_objs op) ->
+    unpack decompress bs reqs
+    = UHit (snd (fst op)) (snd op)
+           (map (fun o => Some (Some (perm_of (obj_mode o)), obj_content o)) (op_objs op)).
+Proof. exact history_roundtrip. Qed.
+Print Assumptions C08_pack_history_roundtrip.
+
+Theorem C08_pack_history_independent :
+  forall (compress : list N -> list N) (ops1 ops2 : list pack_op) (op : pack_op),
+    nth_error (pack_history compress (ops1 ++ op :: ops2)) (length ops1) = Some (pack_one compress op)
+    /\ ((exists o, In o (fst (fst op)) /\ snd (snd o) <> None) -> pack_one compress op = None).
+Proof. intros. split; [apply history_independent|apply pack_one_fails]. Qed.
+Print Assumptions C08_pack_history_independent.
+
 (* the level the writer uses is always an i32, whatever the variable holds; unset means 3 *)
 Theorem C08_zstd_level_is_i32 :
   forall env : option (list N),
